@@ -13,8 +13,8 @@ def main():
     ctx.run_tlc("CallShape", "CallShape_mc.cfg", expect="ok")
     ctx.run_tlc("CallShape", "CallShape_sw_OffByOne.cfg", expect="violation")
     shapes = [j for j in ctx.run_tlc("CallShape", "CallShape_gen.cfg", expect="ok").json_lines() if isinstance(j, dict) and "exp" in j]
-    if len(shapes) != 275:
-        raise MachineryError(f"expected 275 call shapes, got {len(shapes)}")
+    if len(shapes) != 315:
+        raise MachineryError(f"expected 315 call shapes, got {len(shapes)}")
     results = replay("callshape", shapes)
     ctx.replayed = sum(len(r) for r in results)
     for c, r in zip(shapes, results):
@@ -22,7 +22,8 @@ def main():
         vs = sorted(c["vars"])
         exp_sols = sorted([g[str(i)] for i in vs] if isinstance(g, dict) else list(g) for g in e["solutions"]) if e["symbolic"] else None
         exp_calls = sorted(list(x["a"]) for x in e["calls_at_evaluation"]) if e["symbolic"] else None
-        for kind in ("function", "predicate", "function_int", "predicate_derived", "function_after_binding", "predicate_after_binding", "function_int_equals_zero"):
+        for kind in ("function", "predicate", "function_int", "predicate_derived", "function_after_binding", "predicate_after_binding", "function_int_equals_zero",
+                     "predicate_expensive_items", "function_items"):
             if kind not in r:
                 continue
             o = r[kind]
